@@ -369,6 +369,32 @@ func TestVerifReplayLeafVariants(t *testing.T) {
 			}
 		}
 	})
+	// intents that share a priority: which of them rules must not depend on when their entries were written (a re-applied
+	// unchanged intent keeps its stored entry, new content carries no timestamp), and an unchanged intent that is
+	// re-applied next to such a neighbour, with the device running its value, sends nothing
+	{
+		fnT := "(*tree.LeafVariants).GetHighestPrecedence"
+		mk := func(owner string, prio int32, val int, ts int64) *LeafEntry {
+			return &LeafEntry{Update: cache.NewUpdate([]string{"a", "b"}, vrBytes(val), prio, owner, ts)}
+		}
+		for _, tss := range [][2]int64{{1, 2}, {2, 1}, {0, 5}, {5, 0}, {3, 3}} {
+			for _, onlyNew := range []bool{false, true} {
+				rep.cases[fnT]++
+				lv := newLeafVariants(nil)
+				lv.Add(mk("a", 10, 1, tss[0]))
+				lv.Add(mk("b", 10, 2, tss[1]))
+				lv.Add(mk(RunningIntentName, RunningValuesPrio, 1, 0))
+				got := lv.GetHighestPrecedence(onlyNew, false)
+				inp := fmt.Sprintf("variants=[{a p10 - v1 ts%d} {b p10 - v2 ts%d} {running v1}],onlyNewOrUpdated=%v", tss[0], tss[1], onlyNew)
+				switch {
+				case onlyNew && got != nil:
+					rep.fail(fnT, "quiet", inp, fmt.Sprintf("returned the entry of %s: an unchanged intent next to a neighbour of the same priority is sent again", got.Owner()))
+				case !onlyNew && (got == nil || got.Owner() != "a"):
+					rep.fail(fnT, "tie_does_not_depend_on_timestamps", inp, fmt.Sprintf("returned %v, with other timestamps the entry of a", got))
+				}
+			}
+		}
+	}
 	for fn, n := range rep.cases {
 		fmt.Printf("REPLAY-CASES fn=%s n=%d\n", fn, n)
 	}
